@@ -127,6 +127,14 @@ func checkC04(p *load.Program, r *kit.Report) {
 			}
 			break
 		}
+		v = kit.Provenance(v)
+		for {
+			if cv, ok := v.(*ssa.Convert); ok {
+				v = cv.X
+				continue
+			}
+			break
+		}
 		if ph, ok := v.(*ssa.Phi); ok {
 			for _, e := range ph.Edges {
 				if bo, ok := e.(*ssa.BinOp); ok && bo.Op == token.ADD && bo.X == ssa.Value(ph) {
